@@ -392,7 +392,8 @@ func (f *Frame) loopModifies(l *Loop) map[string]bool {
 func (f *Frame) loopEnv(l *Loop, phiVals map[*ssa.Phi]Term, st *State) *Env {
 	env := f.loopEnv0(l, phiVals, st)
 	if l.pre != nil {
-		env.loopPre = f.loopEnv0(l, l.preVals, l.pre)
+		// before(e): the heap as it was when the loop was entered, the loop's variables as they are now
+		env.loopPre = f.loopEnv0(l, phiVals, l.pre)
 	}
 	return env
 }
